@@ -21,8 +21,8 @@ inductive Part
 mutual
 /-- token offsets (ns) and finish time of one part started at offset `s`; `none` when the part is not computed by the
 model: `const` with ops > 0 is computed only where every float64 operation of `NewConst` is exact (ops divides 10⁹ and
-the duration is whole seconds: n = ops·seconds tokens, token i at i·(10⁹/ops)), a fractional rate never; the float
-arithmetic in general belongs to C01 -/
+the duration is whole seconds: n = ops·seconds tokens, token i at i·(10⁹/ops)), a fractional rate `constm` only where
+rate and duration in seconds are eighths and 10⁹/rate is whole; the float arithmetic in general belongs to C01 -/
 def partToks : Part → Int → Option (List Int × Int)
   | .once n, s => some (List.replicate n.toNat s, s)
   | .const ops ms, s =>
@@ -31,7 +31,14 @@ def partToks : Part → Int → Option (List Int × Int)
         some ((List.range (ops * (ms / 1000)).toNat).map (fun (i : Nat) => s + (i : Int) * (1000000000 / ops)),
               s + ms * 1000000)
       else none
-  | .constm _ _, _ => none
+  | .constm m ms, s =>
+      -- a fractional rate m/1000: computed where every float64 operation of `NewConst` is exact — rate and seconds are
+      -- eighths (m and ms multiples of 125) and 10⁹/rate is a whole number: n = ⌊m·ms/10⁶⌋ tokens, token i at ⌊i·10¹²/m⌋
+      if m ≤ 0 then none
+      else if m % 125 == 0 && ms % 125 == 0 && 0 ≤ ms && 8000000000 % (m / 125) == 0 then
+        some ((List.range ((m * ms) / 1000000).toNat).map (fun (i : Nat) => s + ((i : Int) * 1000000000000) / m),
+              s + ms * 1000000)
+      else none
   | .step f t st ms, s =>
       some ((instanceStepToks f t st (ms * 1000000)).map (· + s), s + instanceStepDur f t st (ms * 1000000))
   | .comp ps, s => partsToksF ps s
@@ -80,6 +87,17 @@ structure Obs where
   lastshot : Int := -1
   /-- first instant at which a gun, shooting or being closed, saw the context of its `GunDeps` done (-1: never) -/
   gunctx : Int := -1
+  /-- (instance id, number of `Shoot` calls of its gun) -/
+  shots : List (Nat × Nat) := []
+  /-- tokens of the RPS profile (of each instance with per-instance profiles, of the shared one otherwise); -1: not countable -/
+  rpstot : Int := -1
+  /-- ammo the provider hands out; 0: unlimited -/
+  ammo : Nat := 0
+  /-- a lower bound (ns) for the time from the first `Next` call on an RPS profile to its first "finished" answer (the
+  durations of its parts up to the last UNLIMITED one; 0 without such a part) -/
+  rpsmin : Int := 0
+  /-- (instant of the first `Next` call, instant of the first "finished" answer) of every RPS schedule object that ended -/
+  rpsspans : List (Int × Int) := []
 deriving Repr
 
 /-- margin around a cut inside which "was this token still started?" is not decided -/
@@ -89,7 +107,8 @@ def margin : Int := 300000000
 def minOf (cs : List (String × Int)) : Option (String × Int) :=
   cs.foldl (fun acc c => match acc with | none => some c | some a => if c.2 < a.2 then some c else some a) none
 
-/-- causes that cut instance START short: out of ammo, end of the SHARED RPS profile, run cancel, creation failure
+/-- causes that cut instance START short: out of ammo, end of the SHARED RPS profile, run cancel, creation failure, the
+pool failing for another reason (provider / aggregator error: `fail`; a gun panicked: `panic`) which cancels the run
 (the end of a per-instance RPS profile stops that instance only) -/
 def startCuts (perinst : Bool) (o : Obs) : List (String × Int) :=
   o.cuts.filter fun c => !(perinst && c.1 == "rps")
@@ -147,13 +166,14 @@ def cutAt (o : Obs) (kind : String) : Option Int := (o.cuts.find? (·.1 == kind)
 
 /-- has the cause an exit claims occurred by the time of the exit?  `sched`: an RPS schedule has reported its end;
 `ammo`: the provider has refused ammo; `ctx`: the run was cancelled or the pool failed (a gun could not be created);
-`err` (a gun panicked) does not occur with the harness gun; `?`: reason not logged, nothing to check -/
+`err`: a gun panicked (harness: `panicshot=`); `?`: reason not logged, nothing to check -/
 def exitExplained (o : Obs) (x : Nat × Int × String) : Bool :=
   let by_ (kind : String) : Bool := match cutAt o kind with | some t => t ≤ x.2.1 | none => false
   match x.2.2 with
   | "sched" => by_ "rps"
   | "ammo" => by_ "ammo"
-  | "ctx" => by_ "cancel" || by_ "fail"
+  | "ctx" => by_ "cancel" || by_ "fail" || by_ "panic"
+  | "err" => by_ "panic"
   | "?" => true
   | _ => false
 
@@ -167,7 +187,7 @@ RPS profile ending cancels instance START only; (2) "keeps firing UNTIL the run 
 `runawayMargin` after the cancellation (decided only when the harness was scheduled well) -/
 def judgeCtx (o : Obs) : String :=
   let by_ (kind : String) (t : Int) : Bool := match cutAt o kind with | some c => c ≤ t | none => false
-  if o.gunctx ≥ 0 && !(by_ "cancel" o.gunctx || by_ "fail" o.gunctx) then
+  if o.gunctx ≥ 0 && !(by_ "cancel" o.gunctx || by_ "fail" o.gunctx || by_ "panic" o.gunctx) then
     s!"fail:gunctx:the context given to a gun was done at {o.gunctx} ns while its instance was running, the run not being cancelled ({o.cuts})"
   else match cutAt o "cancel" with
     | some c =>
@@ -175,6 +195,44 @@ def judgeCtx (o : Obs) : String :=
         s!"fail:runaway:a shot began at {o.lastshot} ns, the run was cancelled at {c} ns"
       else "ok"
     | none => "ok"
+
+/-- number of shots of the instance bound with `id` -/
+def shotsOf (o : Obs) (id : Nat) : Nat := match o.shots.find? (·.1 == id) with | some p => p.2 | none => 0
+
+/-- "an instance, once started, keeps firing until its RPS profile or the ammo is exhausted or the run is cancelled", counted:
+when the run was neither cancelled nor failed and every instance has finished with a logged reason, then
+* per-instance profiles: an instance that finished as "RPS profile exhausted" has fired exactly the tokens of its profile, no
+  instance more;
+* shared profile: if some instance finished as "RPS profile exhausted", all instances together have fired exactly its tokens
+  (every token handed out is shot: an instance draws a token only with ammo in hand), never more;
+* limited ammo: never more shots than ammo; if instances finished as "out of ammo" and none as "RPS profile exhausted", every
+  ammo handed out was shot.
+These are exact counts, independent of timing (an overdue token is shot at once; nothing is discarded). -/
+def judgeFired (perinst : Bool) (o : Obs) : String :=
+  let stopped := (cutAt o "cancel").isSome || (cutAt o "fail").isSome || (cutAt o "panic").isSome
+  -- an RPS profile with an unlimited part is not exhausted before that part's time is over (zero margin, one-sided)
+  match o.rpsspans.find? (fun sp => sp.2 - sp.1 < o.rpsmin) with
+  | some sp => s!"fail:fired:an RPS profile reported its end {sp.2 - sp.1} ns after its first token was asked for, its parts up to the unlimited one last {o.rpsmin} ns"
+  | none =>
+  if stopped || o.err != "nil" || o.running != 0 || o.exits.length != o.k || o.exits.any (·.2.2 == "?") then "ok" else
+  let total := (o.shots.map (·.2)).foldl (· + ·) 0
+  let sched := o.exits.filter (·.2.2 == "sched")
+  let ammoX := o.exits.filter (·.2.2 == "ammo")
+  if o.ammo > 0 && total > o.ammo then s!"fail:fired:{total} shots with {o.ammo} ammo" else
+  if o.ammo > 0 && sched.isEmpty && !ammoX.isEmpty && total != o.ammo then
+    s!"fail:fired:every instance finished as out of ammo after {total} shots in all, the provider had {o.ammo} ammo" else
+  if o.rpstot < 0 then "ok" else
+  let r := o.rpstot.toNat
+  if perinst then
+    match sched.find? (fun x => shotsOf o x.1 != r) with
+    | some x => s!"fail:fired:instance {x.1} finished as 'RPS profile exhausted' after {shotsOf o x.1} shots, its profile has {r} tokens (shots {o.shots})"
+    | none => match o.shots.find? (·.2 > r) with
+      | some p => s!"fail:fired:instance {p.1} fired {p.2} shots, its RPS profile has {r} tokens"
+      | none => "ok"
+  else if !sched.isEmpty && total != r then
+    s!"fail:fired:instances finished as 'RPS profile exhausted' after {total} shots in all, the shared profile has {r} tokens (shots {o.shots})"
+  else if total > r then s!"fail:fired:{total} shots, the shared RPS profile has {r} tokens"
+  else "ok"
 
 def distinct : List Nat → Bool
   | [] => true
@@ -206,7 +264,9 @@ where
     if (startCuts perinst o).isEmpty && o.err == "nil" && o.k != o.total then s!"fail:count:{o.k} instances for {o.total} tokens and nothing cut the start short" else
     if o.jitter ≤ jitterMax && o.k + o.fails < lower perinst o then s!"fail:missing:{o.k} instances, {lower perinst o} tokens were released {margin / 1000000} ms or more before the first cause {o.cuts}" else
     match judgeExits o with
-    | "ok" => judgeCtx o
+    | "ok" => (match judgeCtx o with
+      | "ok" => judgeFired perinst o
+      | v => v)
     | v => v
   /-- every exit needs ITS cause, and none comes before the first possible cause -/
   judgeExits (o : Obs) : String :=
